@@ -1,22 +1,12 @@
-"""Per-property configuration of the driver (see DESIGN.md section 2)."""
+"""Per-property driver configuration: one JSON file per property under lib/props.d/ (see DESIGN.md section 2).
 
-PROPS = {
-    "C01": {
-        "pkg": "c01",
-        "level": "exploration",
-        "rule": ("rapid state machines: histories of alloc/allocSpecific/renew/release/releaseValue/advanceEpoch/reload "
-                 "over a 6-subscriber alphabet and generated pool geometries, one machine per pool implementation, checked "
-                 "step by step against a reference map model (uniqueness, in-range, same value on re-ask); plus concurrent "
-                 "phases. Non-trivial = a value given up by one subscriber (release/expiry/reload) is later handed to a "
-                 "different subscriber, or >=2 concurrent allocators; distinct = FNV-64 of implementation + op history."),
-        "quick": {"timeout": 300, "shards": 1},
-        "thorough": {"timeout": 3000, "shards": 2},
-        "technique": "model-based stateful property testing (rapid state machines vs reference map model), concurrent stress phases",
-        "level_text": ("Generated-history search: every pool implementation is driven through thousands of random op histories "
-                       "(and, in thorough, bounded-exhaustive ones) and compared step by step with a reference model. "
-                       "It cannot show absence; it shows the property held on everything generated."),
-        "level_note": "Trusted: the reference model, rapid, Go runtime. Concurrency is stress (real goroutines), not schedule enumeration.",
-        "assumptions": ["go1.25 runtime", "pgregory.net/rapid v1.3.0 generation/shrinking",
-                        "reference model in harness/c01/model_test.go"],
-    },
-}
+keys: pkg, level (exploration|fault_enumeration), rule, technique, level_text, level_note, assumptions,
+      quick/thorough: {timeout (s, per process), shards (processes per TestProp* function)},
+      optional: native (bool: build native runner), race (bool), parallel (max concurrent processes),
+                shards_for: {TestName: {quick: n, thorough: n}}, claimed (bool, default true), na_reason
+"""
+import glob, json, os
+
+PROPS = {}
+for _p in sorted(glob.glob(os.path.join(os.path.dirname(os.path.abspath(__file__)), "props.d", "C*.json"))):
+    PROPS[os.path.basename(_p)[:-5]] = json.load(open(_p))
